@@ -1986,9 +1986,20 @@ fn encode_case(r: &mut Rng, which: u64, want: Kd) -> Case {
             oracle.get_or_insert("the cancellation does not name the dropped operation".into());
         }
     }
+    // The two known classes, each pinned to the submission the known defect produces; any other
+    // deviation on the same operation is a violation of its own.
+    //   H20: IOSQE_FIXED_FILE lands on the (regular) output, the (direct) input is named as a
+    //        process descriptor and never gets SPLICE_F_FD_IN_FIXED;
+    //   H24: IORING_OP_STATX carries IOSQE_FIXED_FILE, which the kernel refuses.
     let known = match (&d, k, oracle.is_some()) {
-        (OpD::SpliceTo { .. }, Kd::Direct, true) => Some("splice-to-direct".to_string()),
-        (OpD::Statx { .. }, Kd::Direct, true) => Some("metadata-direct".to_string()),
+        (OpD::SpliceTo { t, len, oi, oo, flags }, Kd::Direct, true) => {
+            let h20 = format!("splice(in=fd:{fdn} {}, out=fixed:{t} {}, len={len}, flags={flags})", f_pos(*oi), f_pos(*oo));
+            (got_call.as_ref() == Ok(&h20)).then(|| "splice-to-direct".to_string())
+        }
+        (OpD::Statx { .. }, Kd::Direct, true) => {
+            let h24 = "statx: IOSQE_FIXED_FILE on a request whose fd is not a file (-EBADF/-EINVAL)";
+            (got_call.as_ref().err().map(|e| e.as_str()) == Some(h24)).then(|| "metadata-direct".to_string())
+        }
         _ => None,
     };
     // Let the operation finish (with an error nobody interprets) so that everything is released.
